@@ -14,25 +14,34 @@ POOLS = {
     'number:int:signed': (['-5', '0', '3', '10', '200', '-10'], lambda v: int(v)),
     'number:tinyint': (['0', '3', '10', '200', '9'], lambda v: int(v)),
     'number:bigint:signed': (['-9000000000', '0', '7', '10', '9000000000'], lambda v: int(v)),
-    'number:decimal:10:2': (['-1.50', '0.00', '2.25', '10.00', '100.10', '9.99'], lambda v: Fraction(Decimal(v))),
+    'number:decimal:10:2:signed': (['-1.50', '0.00', '2.25', '10.00', '100.10', '9.99'], lambda v: Fraction(Decimal(v))),
+    'number:decimal:30:20:signed': (['-0.10000000000000000001', '-0.10000000000000000003', '0.10000000000000000002',
+                                     '-0.10000000000000000002', '123456789.00000000000000000001', '0.00000000000000000000'],
+                                    lambda v: Fraction(Decimal(v))),
     'number:currency': (['1.0000', '-2.5000', '10.0000', '9.9999', '0.0001'], lambda v: Fraction(Decimal(v))),
-    'number:float': (['1.500000E+00', '-3.000000E+01', '2.000000E+10', '9.999999E-01', '1.000000E+01'], lambda v: Fraction(float(v))),
-    'number:double': (['1.500000000000000E+00', '-3.000000000000000E+01', '2.000000000000000E+100', '9.000000000000000E+00',
+    'number:float:signed': (['1.500000E+00', '-3.000000E+01', '1.5E+00', '9.999999E-01', '1.000000E+01', '15.000000E-01'], lambda v: Fraction(float(v))),
+    'number:double:signed': (['1.500000000000000E+00', '-3.000000000000000E+01', '2.000000000000000E+100', '9.000000000000000E+00',
                        '1.000000000000000E+01'], lambda v: Fraction(float(v))),
     'datetime': (['2020-01-01T00:00:00.000000Z', '2019-12-31T23:59:59.999999Z', '2020-01-01T00:00:00.000001Z',
                   '1999-05-05T10:00:00.000000Z', '2020-10-01T00:00:00.000000Z'], lambda v: v),
     'sequence': (['1', '2', '3', '10', '33', '9'], lambda v: int(v)),
+    'sequence:alt': (['1', '01', '2', '10', '010', '9'], lambda v: int(v)),
 }
 MINMAX_TYPES = [t for t in POOLS if t != 'string:0:mc:u']
-MATCH_TYPES = [t for t in POOLS if t not in ('number:float', 'number:double')]
+# 'sequence:alt' is the data type `sequence` with a pool that holds several valid spellings of one number
+
+
+def real_type(dt):
+    return 'sequence' if dt == 'sequence:alt' else dt
+MATCH_TYPES = [t for t in POOLS if not t.startswith(('number:float', 'number:double'))]
 TYPE, SRC = 'ta', '/s/'
 
 
 def family(dt):
-    return ':'.join(dt.split(':')[:2])
+    return ':'.join(real_type(dt).split(':')[:2])
 
 
-def gen_etype(rng, force_version=None):
+def gen_etype(rng, force_version=None, add_multi=False):
     """returns list of property dicts + version property name or None"""
     props = []
     has_version = rng.random() < 0.5 if force_version is None else force_version
@@ -48,6 +57,8 @@ def gen_etype(rng, force_version=None):
             dt, multi, opt = rng.choice(MATCH_TYPES), rng.random() < 0.5, rng.random() < 0.4
         else:
             dt, multi, opt = rng.choice(list(POOLS)), rng.random() < 0.5, rng.random() < 0.5
+        if s == 'add' and add_multi:
+            multi = True       # the stream mergers write (and validate) their result
         props.append({'name': 'p%d' % i, 'object_type': 'o' + str(i), 'data_type': dt, 'merge': s, 'multivalued': multi, 'optional': opt})
     if has_version:
         props.append({'name': 'v', 'object_type': 'ov', 'data_type': 'sequence', 'merge': 'max', 'multivalued': False, 'optional': False})
@@ -100,7 +111,7 @@ def gen_group(rng, et, size=None, allow_conflict=True):
 
 
 def ontology_xml(et):
-    ots = [(p['object_type'], p['data_type']) for p in et['props']]
+    ots = [(p['object_type'], real_type(p['data_type'])) for p in et['props']]
     etd = {'name': TYPE, 'properties': et['props'], 'attachments': [{'name': 'att'}]}
     if et['version']:
         etd['event-version'] = et['version']
@@ -158,8 +169,8 @@ def rank_tables(et):
     tbl = []
     for p in et['props']:
         pool, key = POOLS[p['data_type']]
-        ks = sorted({key(v) for v in pool})
-        tbl.append((p['name'], [(v, Z(ks.index(key(v)))) for v in pool]))
+        ks = sorted({(key(v), v) for v in pool})      # ties between spellings of one value are broken by the spelling
+        tbl.append((p['name'], [(v, Z(ks.index((key(v), v)))) for v in pool]))
     return tbl
 
 
